@@ -101,6 +101,16 @@ def apply(wire: bytes, m, regions=None):
                 return None
             if not offs or outer[3] != len(wire):
                 return None
+            if m.get('region') in ('digest', 'tl'):
+                # aim at the components of the packet's Name (the parameters-digest component among them)
+                try:
+                    first = T.read_tlv(wire, outer[2], outer[3])
+                    if first[0] == 7:
+                        inside = [o for o in offs if first[2] <= o < first[3]]
+                        if inside:
+                            offs = inside[::-1]       # (the digest component is usually the last one)
+                except T.Malformed:
+                    pass
             lo = offs[m['pos'] % len(offs)]
             ln, lend, _ = T.read_num(wire, lo, len(wire))
             choice = m['n'] % 4
@@ -120,8 +130,7 @@ def apply(wire: bytes, m, regions=None):
                 new = b'\xff' + (2 ** 63 + m['val']).to_bytes(8, 'big')
             else:
                 new = b'\xfe' + cur.to_bytes(4, 'big') if cur < 2 ** 32 else b'\xff' + cur.to_bytes(8, 'big')
-            body = wire[outer[2]:a] + new + wire[b:]
-            return T.enc_num(outer[0]) + T.enc_num(len(body)) + body
+            return _splice_fixing_ancestors(wire, 0, len(wire), a, b, new)
         if k == 'len-raw':
             # +-n on one element's length byte without re-fixing anything else
             try:
@@ -179,6 +188,27 @@ def apply(wire: bytes, m, regions=None):
         raise ValueError(k)
     out = enc_nodes(tree)
     return out if out != wire else None
+
+
+def _splice_fixing_ancestors(buf, start, end, a, b, new):
+    """buf[start:end] (a sequence of elements) with buf[a:b] - part of ONE element's type-length header - replaced by `new`,
+    the lengths of every element that ENCLOSES that element re-computed."""
+    out = b''
+    off = start
+    while off < end:
+        try:
+            typ, tl, vs, ve, _m = T.read_tlv(buf, off, end)
+        except T.Malformed:
+            return out + buf[off:end]
+        if tl <= a and b <= vs:
+            out += buf[tl:a] + new + buf[b:ve]           # the header of this very element
+        elif vs <= a and b <= ve:
+            inner = _splice_fixing_ancestors(buf, vs, ve, a, b, new)
+            out += T.enc_num(typ) + T.enc_num(len(inner)) + inner
+        else:
+            out += buf[tl:ve]
+        off = ve
+    return out
 
 
 def _type_offsets(wire, start=0, end=None, depth=0):
